@@ -1073,7 +1073,43 @@ def r15_scalar_spellings(ctx):
     ctx.floor('C17.R15', 'scalar primitives with a spelling', n, 15)
 
 
+def r16_equality_is_structural(ctx):
+    ctx.rule('C17.R16', 'P3/P8 on the trait impls: the laws (reflexivity, symmetry, substitution, rendering) are stated up to `==` on `Type`, and the lookup maps '
+             'are keyed by canonical forms through `Hash`: for every ADT reachable from `rustdoc_ir::Type` through its fields, `PartialEq`, `Eq` and `Hash` '
+             'are the DERIVED structural ones. A hand-written impl is where two different types become "equal" (and collide as keys) while they still render '
+             'differently; the rule cannot judge such an impl and fails closed on it.')
+    import re
+    fb = ctx.fb
+    CRATE = 'rustdoc_ir'
+    adts = {a['id']: a for a in fb.adts(CRATE)}
+    root = 'rustdoc_ir::Type'
+    if root not in adts:
+        ctx.need('C17.R16', 'ADT rustdoc_ir::Type', None)
+        return
+    seen, work = {root}, [root]
+    while work:
+        a = adts[work.pop()]
+        for v in a.get('variants', []):
+            for f in v.get('fields', []):
+                for m in re.findall(r'rustdoc_ir::[A-Za-z0-9_:]+', f['ty']):
+                    if m in adts and m not in seen:
+                        seen.add(m)
+                        work.append(m)
+    ctx.count('adts_reachable_from_Type', len(seen))
+    ctx.floor('C17.R16', 'ADTs reachable from Type', len(seen), 12)
+    impls = {}
+    for i in fb.impls(CRATE, 'Rlib'):
+        impls.setdefault((strip_generics(i.get('self') or ''), i.get('trait') or ''), []).append(i)
+    for a in sorted(seen):
+        for tr in ('core::cmp::PartialEq', 'core::cmp::Eq', 'core::hash::Hash'):
+            got = impls.get((a, tr), [])
+            ok = len(got) == 1 and bool(got[0].get('derived'))
+            ctx.ob('C17.R16', 'structural|%s|%s' % (a.split('::')[-1], tr.split('::')[-1]), ok, '%s:%s' % (adts[a]['file'], adts[a]['ln']),
+                   'derived' if ok else ('hand-written impl in %s' % got[0].get('file') if got else 'no impl found'))
+
+
 def check(ctx):
+    r16_equality_is_structural(ctx)
     r15_scalar_spellings(ctx)
     r14_recursive_walkers_are_total(ctx)
     r13_template_roles_and_relation(ctx)
